@@ -195,6 +195,18 @@ CHECKS = {
         "Recovery set fixed in the check; optimiser trajectories are SciPy's (watchdog on fits).",
         "DESIGN.md section 4 / C14",
     ),
+    "C16": (
+        "exploration",
+        "E1",
+        "exhaustive enumeration of label shapes x values x bounds x flags x column-level mixes x 4 formats x options x 2 "
+        "save-load cycles with per-field bit-exact comparison; specification routes against programmatic twins",
+        "Every enumerated parameter table is written and read back twice in every format and compared field by field "
+        "(bit-exact floats, NaN aware, label order, Parameters.__eq__); column-level mixes exercise per-column type "
+        "inference; yml/dict/list specifications with defaults, nesting, numbering and scientific notation are compared "
+        "with programmatically built twins through from_dict/from_list, yml_str and yml files.",
+        "xlsx numbers carry 16 significant digits (openpyxl); tolerated as that format's text precision.",
+        "DESIGN.md section 4 / C16",
+    ),
 }
 
 PENDING_REASON = "check under construction in this round - not claimed until its check runs clean on the unchanged tree"
@@ -235,7 +247,7 @@ def main():
             "add_only": True,
         },
         "engines": [
-            {"name": "E1", "path": "vf/core.py", "serves_properties": ["C01", "C02", "C03", "C04", "C05", "C06", "C07", "C08", "C09", "C11", "C13", "C14"], "kind_free_text": "bounded exhaustive input-space enumeration with reference oracles, 16 workers"},
+            {"name": "E1", "path": "vf/core.py", "serves_properties": ["C01", "C02", "C03", "C04", "C05", "C06", "C07", "C08", "C09", "C11", "C13", "C14", "C16"], "kind_free_text": "bounded exhaustive input-space enumeration with reference oracles, 16 workers"},
             {"name": "E2", "path": "vf/explore.py", "serves_properties": ["C10", "C12", "C19"], "kind_free_text": "explicit-state BFS over event histories replayed on fresh real objects, full-state digests"},
             {"name": "E3", "path": "vf/checks/c15.py", "serves_properties": ["C15"], "kind_free_text": "deviation-bounded fault enumerator (all single / pairs of deviations from the fault-free environment), forked watchdog"},
             {"name": "E5", "path": "vf/prange.py", "serves_properties": ["C10"], "kind_free_text": "partial-order (conflict relation) exploration of numba prange kernels on py_func with recording array proxies"},
